@@ -107,6 +107,8 @@ structure DiscCall (α : Type) where
   radius : α
   inclusive : Bool
   nest : Bool
+  /-- the oversampling factor of healpy's inclusive mode (`fact=`; healpy's default 4 when not passed) -/
+  fact : Nat
 
 /-- one `hp.query_polygon(nside, vertices, inclusive=…, nest=…)` call -/
 structure PolyCall (α : Type) where
@@ -115,6 +117,7 @@ structure PolyCall (α : Type) where
   verts : List (Vec3 α)
   inclusive : Bool
   nest : Bool
+  fact : Nat
 
 /-- one `hp.ang2pix(nside, theta, phi, nest=…)` call -/
 structure PixCall (α : Type) where
@@ -124,6 +127,10 @@ structure PixCall (α : Type) where
   nest : Bool
 
 end num
+
+/-- hand values of the oversampling factor (translator fallbacks): healpy's default -/
+def discFactHand : Nat := 4
+def polyFactHand : Nat := 4
 
 /-- `if depth is None or depth > self.maxdepth: depth = self.maxdepth` -/
 def clampDepth (maxdepth : Nat) (depth : Option Nat) : Nat :=
@@ -135,26 +142,27 @@ section calls
 variable {α : Type} [R α]
 
 /-- `add_circles` for ONE circle `(ra, dec, radius)` (radians): the `query_disc` call it makes.
-    The radius is handed over unchanged (radians), `nside = 2^depth`, nested, inclusive. -/
-def addCircleCall (thetaOf : α → α) (maxdepth : Nat) (depth : Option Nat) (ra dec radius : α) : DiscCall α :=
+    The radius is handed over unchanged (radians), `nside = 2^depth`, nested, inclusive, with the
+    oversampling factor `fact` (regenerated from the source; the property leaves it free). -/
+def addCircleCall (thetaOf : α → α) (fact : Nat) (maxdepth : Nat) (depth : Option Nat) (ra dec radius : α) : DiscCall α :=
   let d := clampDepth maxdepth depth
-  ⟨d, 2 ^ d, sky2vec thetaOf ra dec, radius, true, true⟩
+  ⟨d, 2 ^ d, sky2vec thetaOf ra dec, radius, true, true, fact⟩
 
 /-- `add_circles` with list arguments: one call per zipped triple, in order (Python's `zip`
     stops at the shortest list) -/
-def addCirclesCalls (thetaOf : α → α) (maxdepth : Nat) (depth : Option Nat) :
+def addCirclesCalls (thetaOf : α → α) (fact : Nat) (maxdepth : Nat) (depth : Option Nat) :
     List α → List α → List α → List (DiscCall α)
   | ra :: ras, dec :: decs, r :: rs =>
-      addCircleCall thetaOf maxdepth depth ra dec r :: addCirclesCalls thetaOf maxdepth depth ras decs rs
+      addCircleCall thetaOf fact maxdepth depth ra dec r :: addCirclesCalls thetaOf fact maxdepth depth ras decs rs
   | _, _, _ => []
 
 /-- `add_poly`: fewer than three positions is rejected (`none` = AssertionError); otherwise one
     `query_polygon` call with the vertices in the given order -/
-def addPolyCall (thetaOf : α → α) (maxdepth : Nat) (depth : Option Nat) (pos : List (α × α)) :
+def addPolyCall (thetaOf : α → α) (fact : Nat) (maxdepth : Nat) (depth : Option Nat) (pos : List (α × α)) :
     Option (PolyCall α) :=
   if pos.length ≥ 3 then
     let d := clampDepth maxdepth depth
-    some ⟨d, 2 ^ d, pos.map (fun p => sky2vec thetaOf p.1 p.2), true, true⟩
+    some ⟨d, 2 ^ d, pos.map (fun p => sky2vec thetaOf p.1 p.2), true, true, fact⟩
   else none
 
 /-- `sky_within` for one position: `none` = the NaN/inf mask (`result[mask] = False`), otherwise
